@@ -46,6 +46,8 @@ func (f *c21Field) goType() reflect.Type {
 		return reflect.TypeOf("")
 	case 2:
 		return reflect.TypeOf([]string(nil))
+	case 4:
+		return reflect.TypeOf(map[string]int(nil))
 	default:
 		return reflect.TypeOf((*int)(nil))
 	}
@@ -79,6 +81,18 @@ func (f *c21Field) value() reflect.Value {
 		}
 		f.isEmpty, f.isZero = false, false
 		return reflect.ValueOf([]string{"e"})
+	case 4:
+		// maps: nil, empty but not nil (empty like the empty slice: seeded change C21B3 forgot that), one entry
+		switch f.state % 3 {
+		case 0:
+			f.isEmpty, f.isZero = true, true
+			return reflect.ValueOf(map[string]int(nil))
+		case 1:
+			f.isEmpty, f.isZero = true, true
+			return reflect.ValueOf(map[string]int{})
+		}
+		f.isEmpty, f.isZero = false, false
+		return reflect.ValueOf(map[string]int{"k": 1})
 	default:
 		switch f.state % 3 {
 		case 0:
@@ -111,7 +125,7 @@ func genC21Fields(rng *Rng, allInt bool) []c21Field {
 			continue
 		}
 		used[name] = true
-		f := c21Field{name: name, kind: rng.Intn(4), state: rng.Intn(6)}
+		f := c21Field{name: name, kind: rng.Intn(5), state: rng.Intn(6)}
 		if allInt {
 			f.kind = 0
 		}
@@ -247,7 +261,10 @@ func runC21(r *Run) {
 			// the documentation is ambiguous - whether a non-nil EMPTY slice is a "zero value" for omit_zero
 			kind := "prop"
 			for i := range fs {
-				if fs[i].kind == 2 && fs[i].state%3 == 1 {
+				// (only for omit_zero: under omit_empty an empty container is empty, nil or not)
+				effectiveZero := strings.Contains(fs[i].tag, "omit_zero") ||
+					(!strings.Contains(fs[i].tag, "omit") && od.name == "zero")
+				if (fs[i].kind == 2 || fs[i].kind == 4) && fs[i].state%3 == 1 && effectiveZero {
 					kind = "corr"
 				}
 			}
